@@ -134,7 +134,14 @@ func composeBuilderForType(schemas ast.Schemas, builders ast.Builders, config Co
 		newBuilder.Name = config.ComposedBuilderName
 	}
 
-	typeField, ok := sourceBuilder.For.Type.AsStruct().FieldByName(config.PluginDiscriminatorField)
+	// builders also exist for the aliases of structs: the struct is what the
+	// alias resolves to
+	sourceType := schemas.ResolveToType(sourceBuilder.For.Type)
+	if !sourceType.IsStruct() {
+		return nil, fmt.Errorf("source builder '%s' is not a builder for a struct", sourceBuilder.Name)
+	}
+
+	typeField, ok := sourceType.AsStruct().FieldByName(config.PluginDiscriminatorField)
 	if !ok {
 		return nil, fmt.Errorf("could not find plugin discriminator field '%s' in builder", config.PluginDiscriminatorField)
 	}
